@@ -21,7 +21,10 @@ OrdCatalog == <<
   << << O(<<T("acl"), ST>>, << O(<<T("d")>>, <<>>), O(<<T("rule"), ST>>, <<>>) >>) >> >>,
   << << O(<<T("pm"), ST>>, << O(<<T("class"), ST>>, << O(<<T("bw"), ST>>, <<>>) >>) >>) >> >>,
   << << O(<<T("rp"), ST>>, <<>>), O(<<T("a"), ST>>, <<>>) >> >>,
-  << << O(<<T("blk"), ST>>, <<>>), O(<<T("a"), ST>>, <<>>) >> >>,
+  << << O(<<T("blk"), ST>>, <<>>), O(<<T("a"), ST>>, <<>>) >>,
+     \* catch-all: the configuration line `<Prefix> n 1` is itself a negated statement, so its removal command is the positive text `n 1`:
+     \* an %order_reverse rule need not begin with the negation word to pin a removal (`portswitch %order_reverse` in huawei.order)
+     << O(<<T("blk"), ST>>, <<>>), OR(<<T("n"), TT>>), O(<<T("a"), ST>>, <<>>) >> >>,
   \* shared-prefix: ONE ordering rule (the first one) covers three patching rules
   << << O(<<T("ip"), TT>>, <<>>) >> >>,
   \* global-desc: the %global entry declared BEFORE the block rule ranks before the block's child rules at every depth; declared AFTER it, after them
@@ -33,7 +36,11 @@ OrdCatalog == <<
   << << O(<<T("blk"), ST>>, << O(<<T("y")>>, <<>>), O(<<T("x"), ST>>, <<>>) >>) >> >>,
   << << O(<<T("rd"), ST>>, <<>>) >> >>,
   << << O(<<T("blk"), ST>>, << O(<<T("x"), ST>>, <<>>), O(<<T("ic"), ST>>, <<>>) >>), O(<<T("top"), ST>>, <<>>) >> >>,
-  << << O(<<T("blk"), ST>>, <<>>), O(<<T("ip"), TT>>, <<>>) >> >>
+  << << O(<<T("blk"), ST>>, <<>>), O(<<T("ip"), TT>>, <<>>) >> >>,
+  \* rewrite-sandwich
+  << << O(<<T("rs"), ST>>, << O(<<T("term"), ST>>, << O(<<T("then")>>, <<>>), O(<<T("from")>>, <<>>) >>) >>) >> >>,
+  \* slash-key
+  << << O(<<T("a"), ST>>, <<>>), O(<<T("port"), ST>>, <<>>) >> >>
 >>
 \* disjointness of sibling languages over the instance universe of the patching catalogue (domain assumption of C08)
 RECURSIVE AllInst(_)
